@@ -37,4 +37,35 @@ PROPS = {
         assumptions=COMMON_ASSUME,
         partial=[],
     ),
+    "C01": dict(
+        level="proof",
+        trusted_base=[KERNEL, CORR,
+                      "modelled, not verified: the generic decoders flooding::Decoder<A> / horizontal_layered::Decoder<A> as the state machines "
+                      "of lean/LdpcV/Model/Decoder.lean over an arbitrary pure `Arith` record (the &mut-self scratch vectors of the built-in "
+                      "arithmetics are not modelled); f64 `x <= 0.0` on the bit pattern; the 20 8-bit implementations additionally have an exact "
+                      "executable model (lean/LdpcV/Model/ArithI8.lean) compared bit-for-bit",
+                      "not proved: panic-freedom of the 16 float implementations for |LLR| <= 1e30 (NaN never reaching partial_cmp().unwrap()) is only observed"],
+        rule=("all 36 names built by DecoderImplementation::build_decoder x 120 (3000 thorough) cases each: matrices with row weight >= 2 from 6 families "
+              "(staircase, column-regular, dense, forest-like, mixed-degree, row-random; up to 40 / 200 columns), LLR vectors from 9 magnitude classes "
+              "(subnormal ... 1e30, exact zeros, 8-bit rounding boundaries +- ulp, punctured zero blocks, -0.0; signs from codewords with 0-5 flips or random), "
+              "limits {0,1,2,3,5,50}; the C01 predicate is evaluated on every result by the Lean driver, and the 20 8-bit names are compared exactly "
+              "with the model; non-trivial = the decoder actually iterated (input signs not already a codeword); distinct = distinct canonical input"),
+        assumptions=COMMON_ASSUME,
+        partial=["panic-freedom of the 16 float implementations is observed (catch_unwind over the generated classes), not proved"],
+    ),
+    "C18": dict(
+        level="proof",
+        exhaustive=True,
+        trusted_base=[KERNEL, CORR,
+                      "the model table lean/LdpcV/Spec/Factory.lean is written from the documentation of DecoderImplementation; the Rust macro table is tied "
+                      "to it by exhaustive translation validation over the 36 variants (Debug / Display / clap value name / from_str round trip) and by "
+                      "behavioural comparison with directly constructed generic decoders for the expected (arithmetic, schedule)"],
+        rule=("exhaustive over the 36 enum variants (value_variants): Debug, Display, clap possible-value name, from_str(Display); behaviour: for every name, "
+              "the factory-built decoder vs flooding::Decoder::new(h, A::new()) / horizontal_layered::Decoder::new(h, A::new()) for the EXPECTED (A, schedule) "
+              "(table written independently in harness/src/c01.rs from the documentation) on a common separating family (40 matrices x 3 calls; pairwise "
+              "separation of the 36 names is measured and reported in harness_extra) plus 25 (400 thorough) random (matrix, 2 calls) per name; 2000 (20000) "
+              "mutated non-member strings; non-trivial = every name row / behaviour case, and non-member strings; distinct = distinct canonical input"),
+        assumptions=COMMON_ASSUME,
+        partial=[],
+    ),
 }
